@@ -173,3 +173,26 @@ Definition guard_F20k (raw : list str) : bool :=
 (* guard F20m: no two schema names collide after sanitisation *)
 Definition guard_F20m (raw : list str) : bool := nodupb (map class_name raw).
 
+(* ---------- whole pipeline for component schemas that are all referenced by operations ----------
+   spec -> build_schemas -> the operations' $ref resolution in document order (schema_parser.py: a $ref whose raw
+   name is not a key of parsed_schemas is parsed again and registered under its doubly sanitised name, or under the
+   raw name when that key is taken) -> ModelsEmitter de-collision over the registered schemas.
+   Output: ((module stem, class name), position of the raw schema whose content the class has); None = RuntimeError. *)
+Fixpoint refs_go (keys : list (str * nat)) (i : nat) (refs : list str) : list (str * nat) :=
+  match refs with
+  | [] => keys
+  | r :: rest =>
+      let ks := map fst keys in
+      if mem_str r ks then refs_go keys (S i) rest
+      else let c2 := class_name (class_name r) in
+           refs_go (keys ++ [(if mem_str c2 ks then r else c2, i)]) (S i) rest
+  end.
+Definition pipeline_models (raw : list str) : option (list ((str * str) * nat)) :=
+  match build_keys raw with
+  | None => None
+  | Some keys =>
+      let keys' := refs_go keys 0 raw in
+      let stored := map (fun ki => class_name (nth (snd ki) raw [])) keys' in   (* name given to IRSchema(...) *)
+      Some (map (fun x => ((snd (snd x), fst (snd x)), snd (nth (fst x) keys' ([], O))))
+                (dedup_models stored))
+  end.
